@@ -26,7 +26,26 @@ ASSUMPTIONS = ["Rust's aliasing guarantee for safe code", "the token list of int
 DISC = {"binomial": "u64", "geometric": "u64", "stdgeometric": "u64", "hypergeometric": "u64"}
 
 
+def weighted_spec(rng):
+    """a weighted index distribution (they implement Distribution<usize> too): alias table or tree over integer / float weights"""
+    import struct
+    fam = rng.choice(["walias", "wtree"])
+    ty = rng.choice(["f32", "f64", "f64", "f32", "u8", "u32", "u64", "i32"])
+    n = 1 + rng.below(9)
+    if ty == "f64":
+        ws = ["x%016x" % struct.unpack("<Q", struct.pack("<d", (rng.below(1 << 53) + 1) / float(1 << 53) * (1 + rng.below(7))))[0] for _ in range(n)]
+    elif ty == "f32":
+        ws = ["x%08x" % struct.unpack("<I", struct.pack("<f", (rng.below(1 << 24) + 1) / float(1 << 24) * (1 + rng.below(7))))[0] for _ in range(n)]
+    else:
+        cap = {"u8": 255, "u32": 2**32 - 1, "u64": 2**64 - 1, "i32": 2**31 - 1}[ty] // n
+        ws = [str(rng.below(min(cap, 1000) + 1)) for _ in range(n)]
+        if all(w == "0" for w in ws): ws[0] = "1"
+    return "%s:%s:%s" % (fam, ty, ",".join(ws))
+
+
 def rand_spec(rng):
+    if rng.chance(1, 6):
+        return weighted_spec(rng)
     fam = rng.choice(S.CONT_FAMILIES + c03.DISC)
     if fam in S.CONT_FAMILIES:
         ty = rng.choice(["f64", "f32"])
@@ -52,8 +71,8 @@ def gen_history(rng, nobj, nops):
         elif c < 85 and n < 9: ops.append("C%d" % rng.below(n)); n += 1
         elif c < 95 and n < 9: ops.append("B%d" % rng.below(n)); n += 1
         else: ops.append("D%d" % rng.below(n))
-    for k in range(nobj):
-        ops.append("D%d" % k)
+    for k in range(n):
+        ops.append("D%d" % k)      # every object, clones and rebuilds included
     return ops
 
 
@@ -90,6 +109,8 @@ def correspond(ctx):
             else:
                 continue
             hist.append((rng.u64(), sp, 1, ["D0", "I0:0:1300", "S0:1", "C0", "I1:1:700", "I0:1:700", "D0", "D1"]))
+    for _ in range(40 if tier == "quick" else 600):
+        hist.append((rng.u64(), weighted_spec(rng), 1, ["D0", "I0:0:50", "C0", "B0", "S1:1", "S0:2", "S2:2", "I1:0:40", "I2:1:40", "D0", "D1", "D2"]))
     lines = []
     for seed, specs, nobj, ops in hist:
         lines.append("pure %x 0 %s %s" % (seed, specs, " ".join(ops)))                 # the history itself
@@ -135,6 +156,15 @@ def correspond(ctx):
             sub = [x for x, op in zip(main, ops) if stream_of(op) in (None, r)]
             if sub != o[3 + r]:
                 fail("outputs on stream %d change when the operations on other streams are removed" % r); break
+        # a clone and a value rebuilt from equal parameters print the same as their source (they are the same value)
+        src, nxt, last = {}, nobj, {}
+        for op in ops:
+            if op[0] in "CB": src[str(nxt)] = op[1:]; nxt += 1
+        for op, res in zip(ops, main):
+            if op[0] == "D": last[op[1:]] = res
+        for k, k0 in src.items():
+            if k in last and k0 in last and last[k] != last[k0]:
+                fail("object %s (a clone / rebuild of object %s) prints differently from its source: %s vs %s" % (k, k0, last[k][:160], last[k0][:160])); break
         # Debug before = after
         dbg = {}
         for op, res in zip(ops, main):
@@ -171,7 +201,7 @@ def correspond(ctx):
                                         "what": "sample() and sample_to_slice() into a reused buffer differ on the same stream: %s vs %s" % (f[0][:200], f[1][:200])})
     return {
         "evaluations": len(hist) + len(vlines), "distinct_nontrivial": len({(h[1], tuple(h[3])) for h in hist}),
-        "rule": "random histories over 1-4 distribution objects of random families/parameters (all 27 samplers) and 3 seeded streams: "
+        "rule": "random histories over 1-4 distribution objects of random families/parameters (all 27 samplers and the two weighted index types over float and integer weights) and 3 seeded streams: "
                 "sample, sample_iter.take(n), clone, rebuild-from-parameters, Debug; each history is run 7 ways on the real crate (twice, with fresh "
                 "objects for every sample, with sample_iter expanded, projected onto each stream) and all outputs (value bits and stream position) "
                 "must agree; distinct = distinct (objects, history)",
